@@ -1,5 +1,5 @@
 (** C19 — pinned statements. Nothing but statements, [exact], and assumption audits. *)
-From TU Require Import Base C19_Model C19_Proofs C19_Count C19_Check C19_Delta C19_NoDup.
+From TU Require Import Base C19_Model C19_Proofs C19_Count C19_Check C19_Delta C19_NoDup C19_Lit C19_LitMaps C19_LitScan C19_LitProofs C19_LitRun.
 From Coq Require Import Permutation.
 Open Scope N_scope.
 
@@ -224,3 +224,160 @@ Proof.
     exact H.
   - apply IRun_budget.
 Qed.
+
+(** * The literal model of the statistics (C19_Lit.v): the two-level hash map
+    [HashMap<BytePair, BytePairInfo { freq, words : HashMap<usize, usize> }>] as an
+    association list with [get_mut] / [entry().and_modify().or_insert()] lookups,
+    the error exits and index arithmetic of [update_stats] written out, any
+    iteration order of the maps.
+
+    The two index-based [while] loops of [update_stats] ([find_position], [usize]
+    subtractions [len - 1], [len - 2], [len - 3], [i - 1], slice indexing) perform
+    exactly the decrements listed by [old_scan] and then the increments listed by
+    [new_scan], in that order: no subtraction underflows, no index is out of range,
+    the loop bound of the model is not reached — for every word, every pair and
+    every statistics value (the only failures left are the two [ok_or_else] exits
+    inside [dec_all_lit]). *)
+Theorem scans_lit : forall p st idx old nw k,
+  one_change p st (idx, old, nw, k) =
+  (st1 <- dec_all_lit (old_scan p None old) idx k st ;; Ok (add_all_lit (new_scan (merge p) None nw) idx k st1)).
+Proof. exact one_change_scan. Qed.
+Print Assumptions scans_lit.
+
+(** [byte_pair_stats] establishes the representation invariant: distinct keys at
+    both levels, word indices in range, every [freq] the recount [pair_freq] of the
+    vocabulary and every occurrence counter the number of occurrences of the pair
+    in that word (absent = 0). *)
+Theorem rep_init : forall c, Rep c (byte_pair_stats_lit c).
+Proof. exact rep_init_l. Qed.
+Print Assumptions rep_init.
+
+(** [replace_pair] under the invariant, for a key of the statistics: it does not
+    panic, rewrites the vocabulary to [apply_pair c p] (skipping the words whose
+    counter is < 1 loses nothing), and [changes] lists exactly the words in which
+    the pair occurs, each once, with the old word and its replacement. *)
+Theorem replace_pair_lit_ok : forall c st p, Rep c st -> st_get st p <> None ->
+  exists chs, replace_pair_lit c p st = Ok (apply_pair c p, chs) /\ NoDup (map ch_idx chs) /\
+    (forall idx w nw k, In (idx, w, nw, k) chs <->
+       nth_error c idx = Some (w, k) /\ nw = replace_in_word p w /\ 0 < count_pair p (word_pairs w)).
+Proof. exact replace_pair_lit_ok_p. Qed.
+Print Assumptions replace_pair_lit_ok.
+
+(** [replace_pair] + [update_stats] under the invariant, for a fresh pair with
+    positive recorded frequency: NO error exit is taken ("pair not found", "word not
+    found", no panic), and the invariant holds of the new vocabulary — so no
+    [saturating_sub] clipped anything but the merged pair's own (zeroed) entry. *)
+Theorem update_lit_ok : forall c st p, Rep c st -> Fresh c p -> 0 < abs_freq st p ->
+  exists chs st', replace_pair_lit c p st = Ok (apply_pair c p, chs) /\
+    update_stats_lit st p chs = Ok st' /\ Rep (apply_pair c p) st'.
+Proof. exact update_lit_ok_l. Qed.
+Print Assumptions update_lit_ok.
+
+(** The invariant does not depend on the iteration order of either map level. *)
+Theorem rep_sperm : forall c st st1, Rep c st -> sperm st st1 -> Rep c st1.
+Proof. exact rep_sperm_l. Qed.
+Print Assumptions rep_sperm.
+
+(** [max_byte_pair] ([filter(freq > 0).max_by_key(freq)], last maximum in iteration
+    order): [None] iff every recorded frequency is 0; otherwise a key whose recorded
+    frequency is positive and maximal. *)
+Theorem max_lit_none : forall st, max_byte_pair_lit st = None <-> (forall e, In e st -> fst (snd e) = 0).
+Proof. exact max_lit_none_l. Qed.
+Print Assumptions max_lit_none.
+Theorem max_lit_some : forall st p, max_byte_pair_lit st = Some p ->
+  exists f ws, In (p, (f, ws)) st /\ 0 < f /\ forall e, In e st -> fst (snd e) <= f.
+Proof. exact max_lit_some_l. Qed.
+Print Assumptions max_lit_some.
+(** Under the invariant: [None] iff the vocabulary is exhausted; otherwise a pair
+    the specification accepts. *)
+Theorem max_lit_spec : forall c st, Rep c st ->
+  (max_byte_pair_lit st = None <-> Exhausted c) /\
+  (forall p, max_byte_pair_lit st = Some p -> StepOK c p /\ abs_freq st p = pair_freq c p).
+Proof. exact max_lit_spec_l. Qed.
+Print Assumptions max_lit_spec.
+
+(** Every run of the literal loop of [train_bpe] from the statistics
+    [byte_pair_stats] builds on a byte-level vocabulary — for every iteration
+    order of the maps at every step, hence every tie-break and every order of
+    [changes] — ends normally (no error exit, no panic) and is an accepted run of
+    the recount specification. *)
+Theorem train_lit_refines : forall c k o, CorpusOK [] c -> LRun c (byte_pair_stats_lit c) k o ->
+  exists ps, o = Done ps /\ Run c k ps.
+Proof. exact train_lit_refines_l. Qed.
+Print Assumptions train_lit_refines.
+
+(** … so the theorems about runs hold of the literal loop: *)
+Theorem train_lit_table : forall c k o, CorpusOK [] c -> LRun c (byte_pair_stats_lit c) k o ->
+  exists ps, o = Done ps /\ (length ps <= k)%nat /\ NoDup (map merge ps) /\
+    (forall i p, nth_error ps i = Some p ->
+       StepOK (state_after c (firstn i ps)) p /\
+       TokOK (map merge (firstn i ps)) (fst p) /\ TokOK (map merge (firstn i ps)) (snd p) /\
+       (2 <= length (merge p))%nat) /\
+    ((length ps < k)%nat -> Exhausted (state_after c ps)).
+Proof. exact train_lit_table_l. Qed.
+Print Assumptions train_lit_table.
+
+(** The deterministic instance (list order = iteration order) is such a run. *)
+Theorem train_lit_ok : forall c k, CorpusOK [] c ->
+  exists ps, train_lit k c (byte_pair_stats_lit c) = Done ps /\ Run c k ps.
+Proof. exact train_lit_ok_l. Qed.
+Print Assumptions train_lit_ok.
+
+(** The replay of an observed training used by the correspondence ([replay]: the
+    literal model driven by the pairs the implementation chose, every chosen pair
+    positive and maximal in the model's statistics, every observed vocabulary and
+    statistics equal to the model's) accepts only runs of the specification … *)
+Theorem replay_sound : forall c k steps, CorpusOK [] c -> replay k c (byte_pair_stats_lit c) steps = true ->
+  Run c k (map (fun s : ostep => fst (fst s)) steps).
+Proof. exact replay_sound_l. Qed.
+Print Assumptions replay_sound.
+
+(** … so when the trace clause accepts an implementation output, the table in it is
+    the table of an accepted run (the vocabulary entries being distinct),
+    independently of the relational test [accepts]. *)
+Theorem trace_ok_sound : forall v out, NoDup (in_corpus v) -> trace_ok v out = true ->
+  exists ps, Run (in_corpus v) (num_merges v) ps /\ map merge ps = out_entries out.
+Proof. exact trace_ok_sound_l. Qed.
+Print Assumptions trace_ok_sound.
+
+(** Non-vacuity of the literal model.  Vocabulary {aaa:1, abab:2, abcaba:3, b:1}. *)
+Definition ex_lc : corpus :=
+  [([[97]; [97]; [97]], 1); ([[97]; [98]; [97]; [98]], 2); ([[97]; [98]; [99]; [97]; [98]; [97]], 3); ([[98]], 1)].
+Example ex_lit_init : byte_pair_stats_lit ex_lc =
+  [(([97], [97]), (2, [(0%nat, 2)])); (([97], [98]), (10, [(1%nat, 2); (2%nat, 2)]));
+   (([98], [97]), (5, [(1%nat, 1); (2%nat, 1)])); (([98], [99]), (3, [(2%nat, 1)])); (([99], [97]), (3, [(2%nat, 1)]))].
+Proof. vm_compute. reflexivity. Qed.
+(** merging (a,a) in "aaa": the merged pair itself is decremented by the look-ahead
+    ([i >= len - 3]) — the one place where [saturating_sub] clips (at the zeroed entry) *)
+Example ex_lit_saturate :
+  match replace_pair_lit ex_lc ([97], [97]) (byte_pair_stats_lit ex_lc) with
+  | Ok (c', chs) => (c', chs, update_stats_lit (byte_pair_stats_lit ex_lc) ([97], [97]) chs)
+  | Err _ => ([], [], Err EFuel)
+  end =
+  ([([[97; 97]; [97]], 1); ([[97]; [98]; [97]; [98]], 2); ([[97]; [98]; [99]; [97]; [98]; [97]], 3); ([[98]], 1)],
+   [(0%nat, [[97]; [97]; [97]], [[97; 97]; [97]], 1)],
+   Ok [(([97], [97]), (0, [(0%nat, 0)])); (([97], [98]), (10, [(1%nat, 2); (2%nat, 2)]));
+       (([98], [97]), (5, [(1%nat, 1); (2%nat, 1)])); (([98], [99]), (3, [(2%nat, 1)])); (([99], [97]), (3, [(2%nat, 1)]));
+       (([97; 97], [97]), (1, [(0%nat, 1)]))]).
+Proof. vm_compute. reflexivity. Qed.
+Example ex_lit_train : train_lit 3 ex_lc (byte_pair_stats_lit ex_lc) =
+  Done [([97], [98]); ([97; 98], [97]); ([99], [97; 98; 97])].
+Proof. vm_compute. reflexivity. Qed.
+(** the error exits are modelled and reachable when the invariant does not hold:
+    statistics that lack the neighbour pair (x,a) / that lack the word index *)
+Example ex_lit_pair_not_found :
+  update_stats_lit [(([97], [98]), (1, [(0%nat, 1)]))] ([97], [98]) [(0%nat, [[120]; [97]; [98]], [[120]; [97; 98]], 1)]
+  = Err EPairNotFound.
+Proof. vm_compute. reflexivity. Qed.
+Example ex_lit_word_not_found :
+  update_stats_lit [(([97], [98]), (1, [(0%nat, 1)])); (([120], [97]), (1, [(7%nat, 1)]))] ([97], [98])
+                   [(0%nat, [[120]; [97]; [98]], [[120]; [97; 98]], 1)]
+  = Err EWordNotFound.
+Proof. vm_compute. reflexivity. Qed.
+(** iteration order matters for ties only: (a,b) and (c,d) both have frequency 1 *)
+Example ex_lit_order :
+  max_byte_pair_lit [(([97], [98]), (1, [(0%nat, 1)])); (([99], [100]), (1, [(1%nat, 1)]))] = Some ([99], [100]) /\
+  max_byte_pair_lit [(([99], [100]), (1, [(1%nat, 1)])); (([97], [98]), (1, [(0%nat, 1)]))] = Some ([97], [98]).
+Proof. vm_compute. split; reflexivity. Qed.
+Example ex_lit_distinct : NoDup (in_corpus ex_in).
+Proof. vm_compute. repeat constructor; cbn; intuition discriminate. Qed.
